@@ -116,6 +116,16 @@ func VH_mstr_CompareNatural() {
 	vAssert(ab == -ba, "CompareNatural: antisymmetric")
 	vAssert((ab == 0) == (vNormalise(a) == vNormalise(b)), "CompareNatural: 0 exactly for strings equal up to leading zeros of digit runs")
 	vAssert(CompareNatural(a, a) == 0, "CompareNatural: reflexive")
+	// without digits it is the ordinary lexicographic comparison
+	nodig := true
+	for i := 0; i < len(a); i++ {
+		nodig = vAll(nodig, !vIsDigit(a[i]))
+	}
+	for i := 0; i < len(b); i++ {
+		nodig = vAll(nodig, !vIsDigit(b[i]))
+	}
+	lex := vIte(a < b, -1, vIte(a > b, 1, 0))
+	vAssert(vImplies(nodig, ab == lex), "CompareNatural: lexicographic on strings without digits")
 }
 
 func VH_mstr_CompareNaturalTrans() {
